@@ -959,7 +959,7 @@ def _core_select(d, order, params):
         fk = _fk_on(in_scope, t, src)
         if on is None:
             on = fk
-        elif fk is not None and j["outer"] == 0:
+        elif fk is not None:
             on = and_(fk, on)
         if on is None:
             on = src[t][1]("id") == src[in_scope[0]][1]("id")
